@@ -31,6 +31,7 @@ pub fn main(args: &[String]) -> i32 {
             "--threads" => { threads = args[i + 1].parse().unwrap(); i += 2; }
             "--resize" => { resize = true; i += 1; }
             "--fault" => { config.faults.push(args[i + 1].parse().unwrap()); i += 2; }
+            "--meta-fault" => { config.meta_faults.push(args[i + 1].parse().unwrap()); i += 2; }
             "--partial" => {
                 let mut it = args[i + 1].split(',');
                 let k: usize = it.next().unwrap().parse().unwrap();
